@@ -296,6 +296,12 @@ func c10(c *Ctx) {
 			av := retResult(ret, 0)
 			cons := "return of " + shortName(f) + " at " + blockOrdinalRet(ret)
 			if isNilConst(ev) {
+				// an address served from a memo of earlier successful lookups of the same name: accepted when the memo is a
+				// package-level map read under the caller's name with the found flag true, and every update of that map, in
+				// this function, files (table address + slide) under that same name on the err==nil side
+				if c10ServedFromMemo(p, r, f, ret, av, slides, cons) {
+					continue
+				}
 				bo, ok := resolveLocal(av).(*ssa.BinOp)
 				okSum := ok && bo.Op == token.ADD
 				var lookup *ssa.Call
@@ -1111,4 +1117,142 @@ func c10CopiedListStored(p *Prog, r *Report, rule string, f *ssa.Function, list 
 	}
 	r.Check(bad == "", rule, "symbols read are stored in the table by "+shortName(f), p.Pos(posOf(call)), "after a successful read every successful return has passed table.Syms = list",
 		"after the executable's symbols were read successfully the function can report success ("+bad+") without having stored them in the table: every variable that is present in the binary is reported as not found")
+}
+
+
+// c10ServedFromMemo: the success return hands out the value found in a package-level map under the function's own name
+// parameter (comma-ok lookup, found == true known). Every update of that map anywhere in the module must then be, in this
+// very function, `memo[name] = <symbol table address> + <slide>` — the value some other return of the function computes and
+// the main rule judges. Returns true when the return was judged here (a Check has been recorded).
+func c10ServedFromMemo(p *Prog, r *Report, f *ssa.Function, ret *ssa.Return, av ssa.Value, slides map[*ssa.Global]*ssa.Store, cons string) bool {
+	v := resolveLocal(av)
+	if ta, ok := v.(*ssa.TypeAssert); ok && !ta.CommaOk {
+		v = resolveLocal(ta.X) // value taken out of a sync.Map
+	}
+	ex, ok := v.(*ssa.Extract)
+	if !ok || ex.Index != 0 {
+		return false
+	}
+	var g *ssa.Global
+	var key ssa.Value
+	var tuple ssa.Value
+	switch lk := ex.Tuple.(type) {
+	case *ssa.Lookup:
+		if !lk.CommaOk {
+			return false
+		}
+		ld, ok := lk.X.(*ssa.UnOp)
+		if !ok || ld.Op != token.MUL {
+			return false
+		}
+		g, _ = ld.X.(*ssa.Global)
+		key, tuple = lk.Index, lk
+	case *ssa.Call:
+		if calleeName(lk.Common()) != "(*sync.Map).Load" {
+			return false
+		}
+		g, _ = lk.Call.Args[0].(*ssa.Global)
+		key, tuple = lk.Call.Args[1], lk
+		if mi, ok := key.(*ssa.MakeInterface); ok {
+			key = mi.X
+		}
+	default:
+		return false
+	}
+	if g == nil {
+		return false
+	}
+	why := ""
+	if len(f.Params) == 0 || resolveLocal(key) != ssa.Value(f.Params[0]) {
+		why = "the memo is not read under the name that was asked for"
+	}
+	found := false
+	for _, gd := range guardsAt(ret.Block()) {
+		if e2, ok := gd.Cond.(*ssa.Extract); ok && e2.Tuple == tuple && e2.Index == 1 && gd.Pol {
+			found = true
+		}
+	}
+	if !found && why == "" {
+		why = "the memo's value is returned without the found flag being true"
+	}
+	nUpd := 0
+	for _, fn := range p.Funcs {
+		if fn.Blocks == nil {
+			continue
+		}
+		eachInstr(fn, func(i ssa.Instruction) {
+			var uKey, uVal ssa.Value
+			switch mu := i.(type) {
+			case *ssa.MapUpdate:
+				l2, ok := mu.Map.(*ssa.UnOp)
+				if !ok || l2.Op != token.MUL || l2.X != ssa.Value(g) {
+					return
+				}
+				uKey, uVal = mu.Key, mu.Value
+			case ssa.CallInstruction:
+				cn := calleeName(mu.Common())
+				if !strings.HasPrefix(cn, "(*sync.Map).") || len(mu.Common().Args) == 0 || mu.Common().Args[0] != ssa.Value(g) {
+					return
+				}
+				switch cn {
+				case "(*sync.Map).Load", "(*sync.Map).Range":
+					return
+				case "(*sync.Map).Store":
+					uKey, uVal = mu.Common().Args[1], mu.Common().Args[2]
+					if mi, ok := uKey.(*ssa.MakeInterface); ok {
+						uKey = mi.X
+					}
+					if mi, ok := uVal.(*ssa.MakeInterface); ok {
+						uVal = mi.X
+					}
+				default:
+					nUpd++
+					why = "the memo is modified through " + cn
+					return
+				}
+			default:
+				return
+			}
+			nUpd++
+			if fn != f {
+				why = "the memo is also filled in " + shortName(fn)
+				return
+			}
+			if resolveLocal(uKey) != ssa.Value(f.Params[0]) {
+				why = "the memo is filled under another key than the name that was asked for"
+				return
+			}
+			bo, ok := resolveLocal(uVal).(*ssa.BinOp)
+			hasSlide, hasSym := false, false
+			var lookup *ssa.Call
+			if ok && bo.Op == token.ADD {
+				for _, side := range []ssa.Value{bo.X, bo.Y} {
+					for _, a := range origins(side) {
+						if g2, ok := a.V.(*ssa.Global); ok {
+							if _, ok := slides[g2]; ok {
+								hasSlide = true
+							}
+						}
+						if b, fv, ok := fieldRef(a.V); ok && fv != nil && (fv.Name() == "Entry" || fv.Name() == "Value") {
+							hasSym = true
+							for _, a2 := range origins(b) {
+								if e3, ok := a2.V.(*ssa.Extract); ok {
+									lookup, _ = e3.Tuple.(*ssa.Call)
+								}
+							}
+						}
+					}
+				}
+			}
+			if !hasSlide || !hasSym || lookup == nil || !errNilGuarded(i.Block(), lookup) {
+				why = "the memo is filled with something other than (table address of the symbol just found + slide) on the err==nil side"
+			}
+		})
+	}
+	if nUpd == 0 && why == "" {
+		why = "the memo is never filled"
+	}
+	r.Check(why == "", "C10.R3", cons+" success (served from the memo of earlier lookups)", p.Pos(posOf(ret)), "memo[name], found; filled only with table address + slide under err==nil for that name",
+		"a lookup returns an address from a memo of earlier lookups, and "+why+": a name can be answered with another symbol's address or with a value that was never a successful lookup")
+	return true
 }
